@@ -114,7 +114,8 @@ def floors(ctx):
             "graphs_with_selfloop": 50, "graphs_with_parallel": 50, "graphs_with_mixed_kinds": 50,
             "links_leaving_universe": 50, "empty_universe": 3, "isolated_members": 100,
             "subclass_resolved_via_ancestor": 100, "multiple_inheritance_members": 50,
-            "renders_after_table_was_extended": 100, "renders_with_format_specs_in_title": 100}
+            "renders_after_table_was_extended": 100, "renders_with_format_specs_in_title": 100,
+            "members_of_same_named_classes_configured_differently": 50}
 
 
 INCREMENTAL_ADDS = {
@@ -179,6 +180,9 @@ def run_case(ctx, spec, tname):
             ctx.count("subclass_resolved_via_ancestor")
         if len(type(v).__bases__) > 1:
             ctx.count("multiple_inheritance_members")
+        if any(type(w) is not type(v) and type(w).__name__ == type(v).__name__
+               and nearest(type(w), ref) is not nearest(type(v), ref) for w in members):
+            ctx.count("members_of_same_named_classes_configured_differently")
         if not v.links:
             ctx.count("isolated_members")
     got_hdr = collections.Counter()
@@ -254,7 +258,7 @@ def run(ctx):
     frng = random.Random(14)
     specs = []
     for ecls in (graphs.ECLS_DU, graphs.ECLS_ALL):
-        for spec in graphs.family_specs(frng, sizes=(4, 7), ecls=ecls, vcls=graphs.VCLS_MIX):
+        for spec in graphs.family_specs(frng, sizes=(4, 7), ecls=ecls, vcls=graphs.VCLS_X):
             spec = dict(spec)
             if spec["uni"] is None:
                 spec["uni"] = list(range(len(spec["verts"])))
@@ -280,9 +284,9 @@ def run(ctx):
                 continue
             spec = specs[n]
         else:
-            ecls = graphs.ECLS_ALL if rng.random() < 0.5 else graphs.ECLS_DU
+            ecls = graphs.ECLS_ALL + ["OtherLink~"] if rng.random() < 0.5 else graphs.ECLS_DU
             spec = graphs.rand_spec(rng, nmax=7 if quick else 14, mmax=10 if quick else 30, ecls=ecls, uni_mode="rand",
-                                    self_p=0.15)
+                                    self_p=0.15, vcls=graphs.VCLS_X)
             if spec["uni"] is None:
                 spec["uni"] = [i for i in range(len(spec["verts"])) if rng.random() < 0.8]
                 rng.shuffle(spec["uni"])
